@@ -22,11 +22,11 @@ LINES_PER_OP = {
 }
 
 
-def factgen(cx, sh, goenv, harness, lean, tags):
+def factgen(cx, sh, goenv, harness, lean, tags, repo="/repo"):
     """regenerate lean/DrummerVerif/Gen/*.lean from /repo; returns an error string or None"""
     if not os.path.isdir(os.path.join(harness, "cmd", "factgen")):
         return None
-    rc, out = sh(["go", "run", "-tags", tags, "./cmd/factgen", "-repo", "/repo", "-out", os.path.join(lean, "DrummerVerif", "Gen")], cwd=harness, env=goenv, timeout=600)
+    rc, out = sh(["go", "run", "-tags", tags, "./cmd/factgen", "-repo", repo, "-out", os.path.join(lean, "DrummerVerif", "Gen")], cwd=harness, env=goenv, timeout=600)
     if rc != 0:
         return out[-1500:]
     return None
